@@ -455,3 +455,37 @@ func ifOf(b *ssa.BasicBlock) *ssa.If {
 	i, _ := b.Instrs[len(b.Instrs)-1].(*ssa.If)
 	return i
 }
+
+// retValue resolves result i of a return: with deferred calls go/ssa spills
+// results to a local and reloads it after rundefers; the value stored last in
+// the return's block is the one returned.
+func retValue(ret *ssa.Return, i int) ssa.Value {
+	v := ret.Results[i]
+	u, ok := v.(*ssa.UnOp)
+	if !ok || u.Op != token.MUL {
+		return v
+	}
+	a, ok := u.X.(*ssa.Alloc)
+	if !ok {
+		return v
+	}
+	b := ret.Block()
+	for k := len(b.Instrs) - 1; k >= 0; k-- {
+		if st, ok := b.Instrs[k].(*ssa.Store); ok && st.Addr == a {
+			return st.Val
+		}
+	}
+	// stored in a dominating block: unique store overall?
+	var only ssa.Value
+	n := 0
+	for _, r := range *a.Referrers() {
+		if st, ok := r.(*ssa.Store); ok && st.Addr == a {
+			only = st.Val
+			n++
+		}
+	}
+	if n == 1 {
+		return only
+	}
+	return v
+}
